@@ -1012,7 +1012,27 @@ func isBroadcast(ip net.IP, network *net.IPNet) bool {
 	// Check for all-ones broadcast
 	ip4 := ip.To4()
 	if ip4 != nil {
-		return ip4[0] == 255 && ip4[1] == 255 && ip4[2] == 255 && ip4[3] == 255
+		if ip4[0] == 255 && ip4[1] == 255 && ip4[2] == 255 && ip4[3] == 255 {
+			return true
+		}
+		// Directed broadcast of the network: all host bits set
+		if network == nil {
+			return false
+		}
+		base := network.IP.To4()
+		mask := network.Mask
+		if len(mask) == net.IPv6len {
+			mask = mask[12:]
+		}
+		if base == nil || len(mask) != net.IPv4len {
+			return false
+		}
+		for i := 0; i < net.IPv4len; i++ {
+			if ip4[i] != base[i]|^mask[i] {
+				return false
+			}
+		}
+		return true
 	}
 	// For MAC address broadcast check
 	if len(ip) == 6 {
